@@ -10,7 +10,7 @@ the decidable spec checker (Model/C17Check.v, written from the property text) is
 observations.  A violation's signature is the checker's clause:  clause:message-type[:feature]."""
 import json, os
 
-FILES = ["Base/Prelude.v", "Model/Custody.v", "Model/C17Check.v", "Proofs/Custody.v"]
+FILES = ["Base/Prelude.v", "Model/Custody.v", "Model/C17Check.v", "Proofs/Custody.v", "Proofs/CustodyVariants.v", "Proofs/CustodyRelease.v"]
 
 
 def observe(R, n, seed=None):
@@ -42,6 +42,54 @@ def report(R, viol, cases, seen):
             R.violation(c, "real code violates clause %s in history %d (%s, %d transactions)" % (c, idx, cases[idx].get("label"), len(ops)), slim(cases[idx]))
 
 
+# ---- structural pins: every writer of the custody stores and every message / decorator arm is one the model knows
+WRITERS = r"\.(SetCustodyRecord|DisableCustodyRecord|DropCustodyRecord|SetCustodyRecordKey|AddToCustodyCustodians|DropCustodyCustodiansByAddress|AddToCustodyWhiteList|DropCustodyWhiteListByAddress|AddToCustodyLimits|DropCustodyLimitsByAddress|AddToCustodyLimitsStatus|DropCustodyLimitsStatus|AddToCustodyPool|DropCustodyPool|ApproveCustody|DeclineCustody|RotateCustodyVotes)\("
+PIN_WRITER_FILES = {"x/custody/keeper/msg_server.go", "app/ante/ante.go", "x/recovery/keeper/msg_server.go"}
+PIN_HANDLERS = {"CreateCustody", "DisableCustody", "DropCustody", "AddToCustodians", "RemoveFromCustodians", "DropCustodians", "AddToWhiteList",
+                "RemoveFromWhiteList", "DropWhiteList", "AddToLimits", "RemoveFromLimits", "DropLimits", "Send", "ApproveTransaction",
+                "DeclineTransaction", "PasswordConfirm", "sendReward"}
+PIN_STORE_FUNCS = {"SetCustodyRecord", "DisableCustodyRecord", "DropCustodyRecord", "SetCustodyRecordKey", "AddToCustodyCustodians",
+                   "DropCustodyCustodiansByAddress", "AddToCustodyWhiteList", "DropCustodyWhiteListByAddress", "AddToCustodyLimits",
+                   "DropCustodyLimitsByAddress", "AddToCustodyLimitsStatus", "DropCustodyLimitsStatus", "AddToCustodyPool", "DropCustodyPool",
+                   "ApproveCustody", "DeclineCustody", "RotateCustodyVotes", "SetMaxCustodyBufferSize", "SetMaxCustodyTxSize"}
+PIN_ANTE_KINDS = {"MsgTypeCreateCustody", "MsgTypeAddToCustodyWhiteList", "MsgTypeAddToCustodyCustodians", "MsgTypeRemoveFromCustodyCustodians",
+                  "MsgTypeDropCustodyCustodians", "MsgTypeRemoveFromCustodyWhiteList", "MsgTypeDropCustodyWhiteList", "MsgTypeSend"}
+
+
+def pins(R):
+    import re, glob
+    import vlib
+    repo = vlib.REPO
+    writers = set()
+    for f in glob.glob(os.path.join(repo, "**", "*.go"), recursive=True):
+        rel = os.path.relpath(f, repo)
+        if rel.endswith("_test.go") or rel.startswith("x/custody/keeper/custody.go"):
+            continue
+        if re.search(WRITERS, open(f, errors="replace").read()):
+            writers.add(rel)
+    R.oblige("pin: the custody stores are written only from %s" % sorted(PIN_WRITER_FILES), writers <= PIN_WRITER_FILES,
+             "unexpected writers of the custody stores (not in the model's alphabet): %s" % sorted(writers - PIN_WRITER_FILES))
+    ms = open(os.path.join(repo, "x/custody/keeper/msg_server.go"), errors="replace").read()
+    handlers = set(re.findall(r"^func \(s msgServer\) (\w+)\(", ms, re.M))
+    R.oblige("pin: the custody msg server has exactly the %d modelled methods" % len(PIN_HANDLERS), handlers == PIN_HANDLERS,
+             "msg server methods differ: +%s -%s" % (sorted(handlers - PIN_HANDLERS), sorted(PIN_HANDLERS - handlers)))
+    store_funcs = set()
+    for f in glob.glob(os.path.join(repo, "x/custody/keeper/*.go")):
+        if f.endswith("_test.go"):
+            continue
+        src = open(f, errors="replace").read()
+        for m in re.finditer(r"^func \(k Keeper\) (\w+)\([^)]*\)[^{]*\{(.*?)^\}", src, re.M | re.S):
+            if re.search(r"\.(Set|Delete)\(", m.group(2)):
+                store_funcs.add(m.group(1))
+    R.oblige("pin: the keeper functions that write the custody store are the known ones", store_funcs <= PIN_STORE_FUNCS,
+             "new store-writing keeper functions: %s" % sorted(store_funcs - PIN_STORE_FUNCS))
+    ante = open(os.path.join(repo, "app/ante/ante.go"), errors="replace").read()
+    m = re.search(r"func \(cd CustodyDecorator\) AnteHandle.*?\n}\n", ante, re.S)
+    kinds = set(re.findall(r"case kiratypes\.(\w+):", m.group(0) if m else ""))
+    R.oblige("pin: the custody decorator inspects exactly the modelled message kinds", kinds == PIN_ANTE_KINDS and "bank.TypeMsgSend" in (m.group(0) if m else ""),
+             "decorator arms differ: +%s -%s" % (sorted(kinds - PIN_ANTE_KINDS), sorted(PIN_ANTE_KINDS - kinds)))
+
+
 def run(R):
     R.trusted += ["hand-written model Model/Custody.v of app/ante/ante.go CustodyDecorator (custody part) + x/custody/keeper/msg_server.go + bank send/multi-send, validated step by step against the real code in Coq on every run; the model variant (5 bits) is selected by probe transactions on the real code",
                   "time.ParseDuration is modelled on the limit strings the harness uses (\"1h\", \"90s\", \"0s\", unparsable ones)",
@@ -50,10 +98,12 @@ def run(R):
     R.assume += ["KV store / protobuf round trip of the custody records is as observed through the keeper getters (an emptied map reads back as a record with an empty map)",
                  "three coin denominations (integers, default = 0); uint64 quantities below 2^63 (no wrap-around modelled)",
                  "transactions are atomic (ante + messages committed together or not at all) as in baseapp.runTx; gas, fees and signatures are outside this property (C02/C09)",
+                 "address rotation (x/recovery): its preconditions outside custody (recovery proof, fee, account existence, rotation history) are computed by the harness from the real state and given to the model as one flag; accounts touched by a rotation are outside the vote theorems (their clauses are named ..._rotated)",
                  "readings: a custodian is an address whose map entry is true; the key requirement applies to accounts whose custody is enabled; an absent whitelist/limit record and a limit entry emptied by RemoveFromLimits restrict nothing; a password matches if it or its sha256 digest equals the password of the request; the limit clause only asks that a single send above the limit amount is refused"]
     R.coq_files(FILES)
     R.coq_property()
     R.audit()
+    pins(R)
     n = 500 if R.tier == "quick" else 12000
     obs = observe(R, n)
     total = 0
@@ -68,7 +118,8 @@ def run(R):
         R.samples = [slim(cases[0]), slim(cases[len(cases) // 2])]
         R.coverage.update({"traces_validated_against_impl": total, "transactions": steps, "input_distribution": dist,
                            "model_variant_probed": dist.get("variant"),
-                           "clauses_checked": ["key", "only_custodians", "vote_once", "threshold", "password", "blocked", "whitelist", "limits", "outflow", "release", "not_atomic", "unmodelled_state"]})
+                           "alphabet": "16 custody messages, bank send / multi-send, x/recovery address rotation; transactions of one or two messages (+ unrelated messages before/after, separate fee payer); block times with nanoseconds",
+                           "clauses_checked": ["key", "only_custodians", "vote_once", "threshold", "password", "payout_without_release", "blocked", "whitelist", "limits", "outflow", "release", "rotate", "not_atomic", "unmodelled_state"]})
     # a broken proof / correspondence: widen the search for a concrete failing input
     if R.broken and not [v for v in R.violations if v["sig"] not in known_sigs(R)]:
         for s in range(100, 103):
